@@ -30,11 +30,11 @@ theorem Pres.trans {a b c : St} (h1 : Pres a b) (h2 : Pres b c) : Pres a c := by
   obtain ⟨d1, l1⟩ := h1.2 hb
   exact ⟨d2.trans d1, l2.trans l1⟩
 
-/-- A crash outcome implies the flag. -/
-def Flagged {α : Type} (out : Gen α × St) : Prop :=
-  ∀ e, out.1.2 = some e → e.isCrash = true → out.2.hashSub = true
+/-- An outcome in the class `Q` (the crash outcomes, or no outcome at all) implies the flag. -/
+def Flagged {α : Type} (Q : Err → Prop) (out : Gen α × St) : Prop :=
+  ∀ e, out.1.2 = some e → Q e → out.2.hashSub = true
 
-def Good (st : St) (out : Gen CRes × St) : Prop := Pres st out.2 ∧ Flagged out
+def Good (Q : Err → Prop) (st : St) (out : Gen CRes × St) : Prop := Pres st out.2 ∧ Flagged Q out
 
 /-! ## The subtraction loops -/
 
@@ -104,10 +104,11 @@ theorem segsOf_noCrash (t : Str) (e : Err) (h : segsOf t = .error e) : e.isCrash
 /-! ## The operators -/
 
 section
-variable {inner : Inner}
+variable {inner : Inner} {Q : Err → Prop} (hQ : ∀ e, Q e → e.isCrash = true)
+include hQ
 
-theorem evalExpr_good (hin : ∀ segs r st, segsOf expr = .ok segs → Good st (inner segs r st)) (r : CRes) (st : St) :
-    Good st (evalExpr inner expr r st) := by
+theorem evalExpr_good (hin : ∀ segs r st, segsOf expr = .ok segs → Good Q st (inner segs r st)) (r : CRes) (st : St) :
+    Good Q st (evalExpr inner expr r st) := by
   unfold evalExpr
   split
   · rename_i e he
@@ -115,33 +116,34 @@ theorem evalExpr_good (hin : ∀ segs r st, segsOf expr = .ok segs → Good st (
     intro e' h1 h2
     simp only [Gen.fail, Option.some.injEq] at h1
     subst h1
-    rw [segsOf_noCrash _ _ he] at h2
-    cases h2
+    have h3 := hQ _ h2
+    rw [segsOf_noCrash _ _ he] at h3
+    cases h3
   · rename_i segs he
     exact hin segs r st he
 
 /-- What `foldOps` guarantees: the state relation, and a crash outcome implies the flag. -/
-def FoldGood (st : St) (out : Except Err (List CRes) × St) : Prop :=
-  Pres st out.2 ∧ ∀ e, out.1 = .error e → e.isCrash = true → out.2.hashSub = true
+def FoldGood (Q : Err → Prop) (st : St) (out : Except Err (List CRes) × St) : Prop :=
+  Pres st out.2 ∧ ∀ e, out.1 = .error e → Q e → out.2.hashSub = true
 
 /-- The operands a fold will evaluate are all well-behaved. -/
-def OperandsGood (inner : Inner) (segs : List ESeg) : Prop :=
-  ∀ expr op, ESeg.collector expr op ∈ segs → ∀ ss r st, segsOf expr = .ok ss → Good st (inner ss r st)
+def OperandsGood (Q : Err → Prop) (inner : Inner) (segs : List ESeg) : Prop :=
+  ∀ expr op, ESeg.collector expr op ∈ segs → ∀ ss r st, segsOf expr = .ok ss → Good Q st (inner ss r st)
 
-theorem foldOps_good (amb : Ctx) : ∀ (segs : List ESeg), OperandsGood inner segs →
-    ∀ (r : CRes) (acc : List CRes) (st : St), FoldGood st (foldOps inner amb segs r acc st) := by
+theorem foldOps_good (amb : Ctx) : ∀ (segs : List ESeg), OperandsGood Q inner segs →
+    ∀ (r : CRes) (acc : List CRes) (st : St), FoldGood Q st (foldOps inner amb segs r acc st) := by
   intro segs
   induction segs with
   | nil => intro _ r acc st; unfold foldOps; exact ⟨Pres.refl _, fun e h => by cases h⟩
   | cons s rest ih =>
     intro hop r acc st
-    have hrest : OperandsGood inner rest := fun expr op hm => hop expr op (by simp [hm])
+    have hrest : OperandsGood Q inner rest := fun expr op hm => hop expr op (by simp [hm])
     cases s with
     | collector expr op =>
-      have hev := fun r st => evalExpr_good (inner := inner) (expr := expr)
+      have hev := fun r st => evalExpr_good hQ (inner := inner) (expr := expr)
         (fun ss r st h => hop expr op (by simp) ss r st h) r st
       cases op with
-      | none => unfold foldOps; exact ⟨Pres.refl _, fun e h hc => by cases h; cases hc⟩
+      | none => unfold foldOps; exact ⟨Pres.refl _, fun e h hc => by cases h; cases hQ _ hc⟩
       | add =>
         unfold foldOps
         simp only
@@ -207,15 +209,15 @@ theorem foldOps_good (amb : Ctx) : ∀ (segs : List ESeg), OperandsGood inner se
     | _ => unfold foldOps; exact ⟨Pres.refl _, fun e h => by cases h⟩
 
 
-theorem collectStep_good (hop : OperandsGood inner (.collector expr .none :: rest)) (r : CRes) (st : St) :
-    Good st (collectStep inner expr rest r st) := by
-  have hrest : OperandsGood inner rest := fun e op hm => hop e op (by simp [hm])
-  have h := evalExpr_good (inner := inner) (expr := expr) (fun ss r st h => hop expr .none (by simp) ss r st h) r st
+theorem collectStep_good (hop : OperandsGood Q inner (.collector expr .none :: rest)) (r : CRes) (st : St) :
+    Good Q st (collectStep inner expr rest r st) := by
+  have hrest : OperandsGood Q inner rest := fun e op hm => hop e op (by simp [hm])
+  have h := evalExpr_good hQ (inner := inner) (expr := expr) (fun ss r st h => hop expr .none (by simp) ss r st h) r st
   unfold collectStep
   rcases hq : evalExpr inner expr r st with ⟨⟨res, _ | e⟩, st1⟩
   · rw [hq] at h
     simp only
-    have h' := foldOps_good (inner := inner) r.ctx rest hrest (r.applyDels (newDels st st1)) (gatherFirst res) st1
+    have h' := foldOps_good hQ (inner := inner) r.ctx rest hrest (r.applyDels (newDels st st1)) (gatherFirst res) st1
     rcases hf : foldOps inner r.ctx rest (r.applyDels (newDels st st1)) (gatherFirst res) st1 with ⟨_ | _ | _, st2⟩
     · rw [hf] at h'
       rename_i e
@@ -302,20 +304,32 @@ theorem noCrash_stepPlain (hmt : MtSafe mt) (hd : ∀ rt, DscSafe (dsc rt)) (rt 
 
 /-- A segment the evaluation may meet: no `unique`/`distinct` keyword (class of C15-K1), and the
 operand of a collector evaluates well. -/
-def SegOk (inner : Inner) (s : ESeg) : Prop :=
-  s.grouping = false ∧ ∀ expr op, s = .collector expr op → ∀ ss r st, segsOf expr = .ok ss → Good st (inner ss r st)
+def SegOk (Q : Err → Prop) (inner : Inner) (s : ESeg) : Prop :=
+  (s.grouping = false ∨ ∀ e, ¬ Q e) ∧
+  ∀ expr op, s = .collector expr op → ∀ ss r st, segsOf expr = .ok ss → Good Q st (inner ss r st)
 
-theorem operandsGood_of_segOk {inner : Inner} {segs : List ESeg} (h : ∀ s ∈ segs, SegOk inner s) :
-    OperandsGood inner segs :=
+/-- Either nothing is to be shown about errors, or the matcher and the attribute evaluation are safe. -/
+def Safe (Q : Err → Prop) (mt : Matcher) (dsc : Node → Desc) : Prop :=
+  (∀ e, ¬ Q e) ∨ (MtSafe mt ∧ ∀ rt, DscSafe (dsc rt))
+
+variable {Q : Err → Prop} (hQ : ∀ e, Q e → e.isCrash = true)
+
+theorem operandsGood_of_segOk {inner : Inner} {segs : List ESeg} (h : ∀ s ∈ segs, SegOk Q inner s) :
+    OperandsGood Q inner segs :=
   fun expr op hm ss r st hs => (h _ hm).2 expr op rfl ss r st hs
 
-theorem good_of_noCrash {g : Gen CRes} (st : St) (h : g.NoCrash) : Good st (g, st) :=
-  ⟨Pres.refl _, fun e he hc => by rw [h e he] at hc; cases hc⟩
+include hQ
 
-theorem stepM_good {inner : Inner} (hmt : MtSafe mt) (hd : ∀ rt, DscSafe (dsc rt)) (s : ESeg) (rest : List ESeg)
-    (hs : ∀ s' ∈ s :: rest, SegOk inner s') (r : CRes) (st : St) : Good st (stepM mt dsc inner s rest r st) := by
-  have hk : ∀ s' ∈ s :: rest, s'.grouping = false := fun s' h => (hs s' h).1
-  have hop : OperandsGood inner (s :: rest) := operandsGood_of_segOk hs
+theorem good_of_noCrash {g : Gen CRes} (st : St) (h : g.NoCrash) : Good Q st (g, st) :=
+  ⟨Pres.refl _, fun e he hc => by have h3 := hQ _ hc; rw [h e he] at h3; cases h3⟩
+
+omit hQ in
+theorem good_of_noQ {g : Gen CRes} (st : St) (h : ∀ e, ¬ Q e) : Good Q st (g, st) :=
+  ⟨Pres.refl _, fun e _ hc => absurd hc (h e)⟩
+
+theorem stepM_good {inner : Inner} (hsafe : Safe Q mt dsc) (s : ESeg) (rest : List ESeg)
+    (hs : ∀ s' ∈ s :: rest, SegOk Q inner s') (r : CRes) (st : St) : Good Q st (stepM mt dsc inner s rest r st) := by
+  have hop : OperandsGood Q inner (s :: rest) := operandsGood_of_segOk hs
   cases s with
   | collector expr op =>
     cases op with
@@ -323,23 +337,27 @@ theorem stepM_good {inner : Inner} (hmt : MtSafe mt) (hd : ∀ rt, DscSafe (dsc 
       unfold stepM
       simp only
       split
-      · exact good_of_noCrash st (noCrash_fail rfl)
-      · exact collectStep_good hop _ st
+      · exact good_of_noCrash hQ st (noCrash_fail rfl)
+      · exact collectStep_good hQ hop _ st
     | add | sub | inter =>
       unfold stepM
       simp only
       split
-      · exact good_of_noCrash st (noCrash_one _)
-      · exact good_of_noCrash st (noCrash_fail rfl)
+      · exact good_of_noCrash hQ st (noCrash_one _)
+      · exact good_of_noCrash hQ st (noCrash_fail rfl)
   | key _ | index _ | slice _ _ | anchor _ | search _ _ _ _ | matchAll | traverse | keyword _ _ _ | unknown =>
     unfold stepM
-    exact good_of_noCrash st (noCrash_stepPlain hmt hd _ _ _ hk r)
+    by_cases hq : ∀ e, ¬ Q e
+    · exact good_of_noQ st hq
+    · have hk : ∀ s' ∈ _ :: rest, s'.grouping = false := fun s' h => (hs s' h).1.resolve_right hq
+      have hsf := hsafe.resolve_left hq
+      exact good_of_noCrash hQ st (noCrash_stepPlain hsf.1 hsf.2 _ _ _ hk r)
 
-theorem bindS_good {f : CRes → St → Gen CRes × St} (hf : ∀ x st, Good st (f x st)) (st0 : St) :
-    ∀ (l : List CRes) (st : St), Good st (bindS f st0 l st) := by
+theorem bindS_good {f : CRes → St → Gen CRes × St} (hf : ∀ x st, Good Q st (f x st)) (st0 : St) :
+    ∀ (l : List CRes) (st : St), Good Q st (bindS f st0 l st) := by
   intro l
   induction l with
-  | nil => intro st; unfold bindS; exact good_of_noCrash st noCrash_nil
+  | nil => intro st; unfold bindS; exact good_of_noCrash hQ st noCrash_nil
   | cons x xs ih =>
     intro st
     unfold bindS
@@ -353,21 +371,21 @@ theorem bindS_good {f : CRes → St → Gen CRes × St} (hf : ∀ x st, Good st 
       simp only
       exact h
 
-theorem requiredW_good {inner : Inner} (hmt : MtSafe mt) (hd : ∀ rt, DscSafe (dsc rt)) :
-    ∀ (segs : List ESeg), (∀ s ∈ segs, SegOk inner s) → ∀ (r : CRes) (st : St),
-      Good st (requiredW mt dsc inner segs r st) := by
+theorem requiredW_good {inner : Inner} (hsafe : Safe Q mt dsc) :
+    ∀ (segs : List ESeg), (∀ s ∈ segs, SegOk Q inner s) → ∀ (r : CRes) (st : St),
+      Good Q st (requiredW mt dsc inner segs r st) := by
   intro segs
   induction segs with
-  | nil => intro _ r st; unfold requiredW; exact good_of_noCrash st (noCrash_one _)
+  | nil => intro _ r st; unfold requiredW; exact good_of_noCrash hQ st (noCrash_one _)
   | cons s rest ih =>
     intro hs r st
-    have hrest : ∀ s' ∈ rest, SegOk inner s' := fun s' h => hs s' (by simp [h])
+    have hrest : ∀ s' ∈ rest, SegOk Q inner s' := fun s' h => hs s' (by simp [h])
     unfold requiredW
-    have h := stepM_good (mt := mt) (dsc := dsc) hmt hd s rest hs r st
+    have h := stepM_good hQ (mt := mt) (dsc := dsc) hsafe s rest hs r st
     rcases hq : stepM mt dsc inner s rest r st with ⟨g, st1⟩
     rw [hq] at h
     simp only
-    have h' := bindS_good (f := requiredW mt dsc inner rest) (fun x st => ih hrest x st) st1 g.1 st1
+    have h' := bindS_good hQ (f := requiredW mt dsc inner rest) (fun x st => ih hrest x st) st1 g.1 st1
     rcases hb : bindS (requiredW mt dsc inner rest) st1 g.1 st1 with ⟨⟨res, _ | e⟩, st2⟩
     · rw [hb] at h'
       simp only
@@ -377,7 +395,24 @@ theorem requiredW_good {inner : Inner} (hmt : MtSafe mt) (hd : ∀ rt, DscSafe (
       simp only
       exact ⟨h.1.trans h'.1, h'.2⟩
 
-/-! ## The decidable path class of the theorems -/
+omit hQ in
+/-- **State relation of the whole evaluator**, no hypothesis: the flag only rises; while it is down
+the document and the deletion log are untouched. -/
+theorem requiredM_pres : ∀ (fuel : Nat) (segs : List ESeg) (r : CRes) (st : St),
+    Pres st (requiredM mt dsc fuel segs r st).2 := by
+  have hQ0 : ∀ e : Err, (fun _ : Err => False) e → e.isCrash = true := fun _ h => h.elim
+  suffices h : ∀ (fuel : Nat) (segs : List ESeg) (r : CRes) (st : St),
+      Good (fun _ => False) st (requiredM mt dsc fuel segs r st) from fun f s r st => (h f s r st).1
+  intro fuel
+  induction fuel with
+  | zero => intro segs r st; unfold requiredM; exact good_of_noQ st (fun _ h => h)
+  | succ f ih =>
+    intro segs r st
+    unfold requiredM
+    exact requiredW_good hQ0 (Or.inl (fun _ h => h)) segs
+      (fun s _ => ⟨Or.inr (fun _ h => h), fun _ _ _ ss r st _ => ih ss r st⟩) r st
+
+/-! ## The decidable path class of the crash theorem -/
 
 /-- No `unique` / `distinct` keyword segment (class of C15-K1) at any nesting level of the collector
 texts the evaluation parses with `fuel`. -/
@@ -391,22 +426,24 @@ def okDeep : Nat → List ESeg → Bool
           | .error _ => true)
        | _ => true))
 
+omit hQ in
 theorem requiredM_good (hmt : MtSafe mt) (hd : ∀ rt, DscSafe (dsc rt)) :
     ∀ (fuel : Nat) (segs : List ESeg), okDeep fuel segs = true → ∀ (r : CRes) (st : St),
-      Good st (requiredM mt dsc fuel segs r st) := by
+      Good (fun e => e.isCrash = true) st (requiredM mt dsc fuel segs r st) := by
+  have hQ1 : ∀ e : Err, (fun e : Err => e.isCrash = true) e → e.isCrash = true := fun _ h => h
   intro fuel
   induction fuel with
-  | zero => intro segs _ r st; unfold requiredM; exact good_of_noCrash st (noCrash_fail rfl)
+  | zero => intro segs _ r st; unfold requiredM; exact good_of_noCrash hQ1 st (noCrash_fail rfl)
   | succ f ih =>
     intro segs hok r st
     unfold requiredM
-    refine requiredW_good hmt hd segs ?_ r st
+    refine requiredW_good hQ1 (Or.inr ⟨hmt, hd⟩) segs ?_ r st
     intro s hs
     unfold okDeep at hok
     rw [List.all_eq_true] at hok
     have h := hok s hs
     simp only [Bool.and_eq_true, Bool.not_eq_true'] at h
-    refine ⟨h.1, ?_⟩
+    refine ⟨Or.inl h.1, ?_⟩
     intro expr op he ss r st hss
     subst he
     have h2 := h.2
